@@ -1,3 +1,5 @@
 import ReplayProofs.Lemmas.Bytes
+import ReplayProofs.Lemmas.Bits
 import ReplayProofs.Lemmas.Codec
 import ReplayProofs.C03
+import ReplayProofs.C17
